@@ -1,5 +1,6 @@
 // xdrv_main.cc — C20: driver for the C++ class interface.  Same line protocol as drv.c (hex numbers, x:bytes).
 //   cxx <tree> <dest> A B C D l u xh [code...]      evaluate generated expression <tree> (xdrv_gen.cc), assign as <dest> says; prints a b c d
+//   cxxq <tree> <dest> An Ad Bn Bd Cn Cd Dn Dd l u xh cop [code...]   the same for mpq_class expression trees
 //   cxx_cmp A B l u xh                               comparison operators and cmp / sgn
 //   cxx_conv X base                                  string constructor, get_str, get_si/get_ui, fits_*
 //   cxx_io X flags width                             operator<< with ios flags, then operator>> of what was written
@@ -16,6 +17,8 @@
 
 typedef void (*fn_t)(mpz_class &, mpz_class &, mpz_class &, mpz_class &, long, unsigned long, double, int);
 extern fn_t fns[]; extern int nfns;
+typedef void (*qfn_t)(mpq_class &, mpq_class &, mpq_class &, mpq_class &, long, unsigned long, double, int);
+extern qfn_t qfns[]; extern int nqfns;
 
 static std::string out;
 static void outs(const std::string &s) { out += ' '; out += s; }
@@ -47,6 +50,13 @@ int main()
       long l = argl(av[7]); unsigned long u = argul(av[8]); double x = mpz_class(argz(av[9])).get_d() / 2.0;
       if (tree < 0 || tree >= nfns) outs("NO-SUCH-TREE");
       else { fns[tree](a, b, c, d, l, u, x, dest); outz(a); outz(b); outz(c); outz(d); }
+    } else if (op == "cxxq" && av.size() >= 15) {
+      int tree = (int)argl(av[1]), dest = (int)argl(av[2]);
+      mpq_class q[4];
+      for (int i = 0; i < 4; i++) { q[i].get_num() = argz(av[3 + 2 * i]); q[i].get_den() = argz(av[4 + 2 * i]); }
+      long l = argl(av[11]); unsigned long u = argul(av[12]); double x = mpz_class(argz(av[13])).get_d() / 2.0;
+      if (tree < 0 || tree >= nqfns) outs("NO-SUCH-TREE");
+      else { qfns[tree](q[0], q[1], q[2], q[3], l, u, x, dest); for (int i = 0; i < 4; i++) { outz(q[i].get_num()); outz(q[i].get_den()); } }
     } else if (op == "cxx_cmp" && av.size() >= 6) {
       mpz_class a = argz(av[1]), b = argz(av[2]); long l = argl(av[3]); unsigned long u = argul(av[4]); double x = mpz_class(argz(av[5])).get_d() / 2.0;
       outl(a == b); outl(a != b); outl(a < b); outl(a <= b); outl(a > b); outl(a >= b); outl(cmp(a, b) < 0 ? -1 : cmp(a, b) > 0); outl(sgn(a));
